@@ -208,7 +208,7 @@ fn x86(path: &str, tracepath: &str) {
             "fpo" => "STACK WIN 0 100 100 0 0 c 0 4 0 0 0",
             "fpo_bp" => "STACK WIN 0 100 100 0 0 c 8 0 0 0 1",
             "cfi" => "STACK CFI INIT 100 100 .cfa: $esp 8 + .ra: .cfa 4 - ^ $ebp: .cfa 8 - ^",
-            "std_fpo" => "STACK WIN 4 100 100 0 0 c 0 0 0 1 $T0 $ebp = $eip $T0 4 + ^ = $ebp $T0 ^ = $esp $T0 8 + =\nSTACK WIN 0 100 100 0 0 c 0 4 0 0 0",
+            "std_fpo" => "STACK WIN 4 100 100 0 0 c 0 0 0 1 $T0 $ebp = $eip $T0 4 + ^ = $ebp $T0 ^ = $esp $T0 8 + =\nSTACK WIN 0 100 100 0 0 4 0 4 0 0 0",     // the FPO record declares a different parameter size: the frame-data record is the one that counts
             "std_cfi" => "STACK WIN 4 100 100 0 0 c 0 0 0 1 $T0 $ebp = $eip $T0 4 + ^ = $ebp $T0 ^ = $esp $T0 8 + =\nSTACK CFI INIT 100 100 .cfa: $esp 8 + .ra: .cfa 4 - ^ $ebp: .cfa 8 - ^",
             "cfi_big" => "STACK CFI INIT 100 100 .cfa: $esp 8 + .ra: .cfa 4 - ^ $ebx: 4294967296 $eax: 4294967296",
             _ => panic!("rule"),
